@@ -201,7 +201,7 @@ impl Property for C15Prop {
             all.extend(ss);
         }
         // the literal invoke id: also ids that begin like the special targets (#_parent, #_internal, #_scxml_<id>)
-        let kid_id = *rng.pick(&["kid", "kid", "parentx", "internalx", "scxmlk"]);
+        let kid_id = *rng.pick(&["kid", "kid", "parentx", "internalx", "scxmlk", "Kid", "kidA.b"]);
         for d in docs.iter_mut() {
             d.xml = d.xml.replace("@KID@", kid_id);
         }
@@ -295,11 +295,17 @@ impl Property for C15Prop {
         let mut vio = Vec::new();
         // executed sends (mark 'send' n) per session
         let mut executed: BTreeMap<usize, u32> = BTreeMap::new();
+        let mut executed_seq: BTreeMap<usize, u64> = BTreeMap::new();
+        let mut started_seq: BTreeMap<u32, u64> = BTreeMap::new();
         for r in v.log {
+            if let RecKind::SessionStart { session, .. } = &r.kind {
+                started_seq.entry(*session).or_insert(r.seq);
+            }
             if let RecKind::Mark { args, .. } = &r.kind {
                 if args.first().map(|s| s.as_str()) == Some("'send'") {
                     if let Some(n) = args.get(1).and_then(|s| s.parse::<usize>().ok()) {
                         executed.insert(n, r.session);
+                        executed_seq.insert(n, r.seq);
                     }
                 }
             }
@@ -366,7 +372,13 @@ impl Property for C15Prop {
                     if hits.is_empty() {
                         // the target may have been unknown at that moment (child not yet registered): then an error event exists
                         let errored = v.log.iter().any(|r| r.session == *from_sid && matches!(&r.kind, RecKind::IntRecv { ev } if ev.name.starts_with("error.") ));
-                        if !errored {
+                        // ... but a session that was up and running when the <send> was executed is a known target:
+                        // an error event instead of the delivery is a routing failure
+                        let known_at_send = match (want_sid.and_then(|s| started_seq.get(&s)), executed_seq.get(n)) {
+                            (Some(st), Some(ex)) => st < ex && want_sid.and_then(|s| session_end_seq(v.log, s)).map(|e| e > *ex).unwrap_or(true),
+                            _ => false,
+                        };
+                        if !errored || known_at_send {
                             vio.push(viol("C15", "C15.lost", format!("send {} ({} -> {}) produced no event on any queue and no error event", n, parts[0], dest), format!("lost:{}", dest_class(dest))));
                         }
                         continue;
